@@ -17,6 +17,7 @@ RULE = (
     "one CVAL per attached controller and 8 CMID bytes each, reserved CMID bytes, CHNK covers every CHNM, options chunk covers the highest "
     "option byte with no stray bits, array chunk sizes, 400-byte sampler record etc.); (2) semantic equality: decoded description == snapshot "
     "of the object (field by field, stored<->user conversions from the YAML). distinct = recipe hash; non-trivial as C01/C02"
+    " Also (added while the seeded-change rounds of DESIGN section 9 ran): Also decoded: files written through the other writing paths (streams, files opened w / a / r+, compressing files), by deepcopy / pickle copies, from loaded-and-edited objects (C06's generator incl. fixtures, samples resized after loading), with large payloads."
 )
 ASSUMPTIONS = list(refcodec.TRUSTED_BASE) + ["the decoder accepts well-formed chunks the prose does not list (FLGS, SFGS, SLnK) and never demands an undocumented one"]
 REQUIRED_LABELS = {
